@@ -507,10 +507,11 @@ static int run_cmd(struct ctx *c, char **t, int nt) {
     fputs("{\"op\":\"errloc\",\"file\":", o); js(o, fn); fprintf(o, ",\"line\":%" PRIu64 "}\n", ln); free(fn); return 0; }
   if (!strcmp(op, "errstring")) { int code = atoi(ARG(1)); const char *m = econf_errString((econf_err)code);
     fprintf(o, "{\"op\":\"errstring\",\"code\":%d,\"name\":\"%s\",\"msg\":", code, ename(code)); js(o, m); fputs("}\n", o); return 0; }
-  if (!strcmp(op, "requireowner")) { econf_requireOwner((uid_t)atol(ARG(1))); fputs("{\"op\":\"requireowner\"}\n", o); return 0; }
-  if (!strcmp(op, "requiregroup")) { econf_requireGroup((gid_t)atol(ARG(1))); fputs("{\"op\":\"requiregroup\"}\n", o); return 0; }
-  if (!strcmp(op, "requireperms")) { econf_requirePermissions((mode_t)strtol(ARG(1), NULL, 8), (mode_t)strtol(ARG(2), NULL, 8)); fputs("{\"op\":\"requireperms\"}\n", o); return 0; }
-  if (!strcmp(op, "followsymlinks")) { econf_followSymlinks(atoi(ARG(1)) != 0); fputs("{\"op\":\"followsymlinks\"}\n", o); return 0; }
+  if (!strcmp(op, "requireowner")) { econf_requireOwner((uid_t)atol(ARG(1))); fprintf(o, "{\"op\":\"requireowner\",\"id\":%ld}\n", atol(ARG(1))); return 0; }
+  if (!strcmp(op, "requiregroup")) { econf_requireGroup((gid_t)atol(ARG(1))); fprintf(o, "{\"op\":\"requiregroup\",\"id\":%ld}\n", atol(ARG(1))); return 0; }
+  if (!strcmp(op, "requireperms")) { econf_requirePermissions((mode_t)strtol(ARG(1), NULL, 8), (mode_t)strtol(ARG(2), NULL, 8));
+    fprintf(o, "{\"op\":\"requireperms\",\"file\":%ld,\"dir\":%ld}\n", strtol(ARG(1), NULL, 8), strtol(ARG(2), NULL, 8)); return 0; }
+  if (!strcmp(op, "followsymlinks")) { econf_followSymlinks(atoi(ARG(1)) != 0); fprintf(o, "{\"op\":\"followsymlinks\",\"on\":%d}\n", atoi(ARG(1)) != 0); return 0; }
   if (!strcmp(op, "resetsec")) { econf_reset_security_settings(); fputs("{\"op\":\"resetsec\"}\n", o); return 0; }
   if (!strcmp(op, "setconfdirs")) { const char *l[MAXTOK]; char *own[MAXTOK]; int n = 0;
     for (int i = 1; i < nt; i++) { own[n] = tokstr(t[i], NULL); l[n] = own[n]; n++; } l[n] = NULL;
